@@ -4,6 +4,7 @@
 // op lines (objects are named by small integers):
 //   new <fam> <id> <cfg...>        upd <id> <a> <b> [coins]      merge|mergemv <dst> <src> [coins]
 //   copy|move <src> <dst>          cassign|massign <dst> <src>   query <id> <arg>   ser <id>   serde <src> <dst>
+//   serdecut <src> <dst> <pct>     (deserialize the image truncated to pct% of its length: must throw and leak nothing)
 //   trim|reset <id>                destroy <id>                  end
 //   alloc shared|distinct          (one allocator instance for all objects / one per object; default distinct)
 // observation per op:
@@ -25,7 +26,8 @@ static std::map<int, Slot> objs;
 static int id_of(const std::string& s) { return atoi(s.c_str()); }
 
 // what is running, for the sanitizer death callback: "<op> fam=<family> [self] [to-moved-from] [on-deserialized]"
-static std::string g_desc;
+static char g_desc[512] = "start";            // plain storage: must stay readable while static objects are destroyed at exit
+static void set_desc(const std::string& d) { snprintf(g_desc, sizeof g_desc, "%s", d.c_str()); }
 static std::map<int, std::string> g_fam;       // object id -> family
 static std::map<int, bool> g_deser;            // object id -> created by deserialization
 
@@ -34,8 +36,10 @@ static std::map<int, bool> g_deser;            // object id -> created by deseri
 static bool g_probe = false;
 static void on_sanitizer_death() {
   if (g_probe) _exit(66);
-  std::cout << "FATAL sanitizer-report " << g_desc << std::endl;
-  std::cout.flush();
+  char buf[640];
+  int n = snprintf(buf, sizeof buf, "FATAL sanitizer-report %s\n", g_desc);
+  fflush(stdout);
+  if (n > 0) { ssize_t r = write(1, buf, (size_t)n); (void)r; }
   _exit(0);
 }
 
@@ -131,7 +135,7 @@ static void do_op(const std::vector<std::string>& w) {
     usable(id_of(w[1])).o->query(w);
   } else if (op == "ser") {
     usable(id_of(w[1])).o->serialize_op();
-  } else if (op == "serde") {
+  } else if (op == "serde" || op == "serdecut") {
     Slot& s = usable(id_of(w[1])); int d = id_of(w[2]); fresh(d);
     std::unique_ptr<AnyObj> o(s.o->roundtrip(w));
     objs[d] = Slot{std::move(o), true};
@@ -163,8 +167,9 @@ int main(int, char**) {
     if (w[0] == "alloc") { L.shared_inst = w.size() > 1 && w[1] == "shared"; std::cout << "cfg\n"; continue; }
     L.begin_op();
     std::string status = "ok";
-    g_desc = describe(w);
-    if (g_desc.find(" self") != std::string::npos || g_desc.find(" to-moved-from") != std::string::npos) {
+    const std::string desc0 = describe(w);
+    set_desc(desc0);
+    if (desc0.find(" self") != std::string::npos || desc0.find(" to-moved-from") != std::string::npos) {
       // assignments to the object itself / to a moved-from object: run the operation in a forked probe first, so that a
       // crash or a sanitizer report of a runtime that does not honour the death callback (UBSan) still yields an
       // observation line naming the operation
@@ -178,7 +183,7 @@ int main(int, char**) {
       }
       int st = 0;
       if (pid > 0 && waitpid(pid, &st, 0) == pid && !(WIFEXITED(st) && WEXITSTATUS(st) == 0)) {
-        std::cout << "FATAL sanitizer-report " << g_desc << std::endl;
+        std::cout << "FATAL sanitizer-report " << desc0 << std::endl;
         std::cout.flush();
         _exit(0);
       }
@@ -187,13 +192,14 @@ int main(int, char**) {
     catch (const BadOp& e) { std::cout << "bad " << e.what() << "\n"; continue; }
     catch (const std::exception& e) { status = "throw"; if (getenv("VH_VERBOSE")) std::cerr << "exception: " << e.what() << "\n"; }
     std::string obs = ledger_observation();
-    std::string desc = g_desc;
-    g_desc = "computing-image-after " + desc;
+    std::string desc = desc0;
+    set_desc("computing-image-after " + desc);
     std::cout << status << " " << obs << " | " << images() << (status == "throw" ? " | T " + desc : "") << "\n";
   }
   // objects the history left alive are destroyed here; LeakSanitizer then checks what is still allocated
-  g_desc = "destroy-at-exit";
+  set_desc("destroy-at-exit");
   objs.clear();
+  set_desc("leak-check-at-exit");
   if (!ledger().live.empty() || !items().st.empty()) {
     std::cout << "FATAL leak-at-exit blocks=" << ledger().live.size() << " items=" << items().st.size() << "\n";
   }
